@@ -44,40 +44,42 @@ type OrderSpec struct {
 }
 
 type Case struct {
-	ID       string            `json:"id"`
-	Main     string            `json:"main,omitempty"`      // text for LoadModuleFromString ...
-	MainName string            `json:"main_name,omitempty"` // ... or resource name for LoadModule
-	Files    map[string]string `json:"files,omitempty"`
-	Faults   []FsFault         `json:"faults,omitempty"`
-	Order    OrderSpec         `json:"order"`
-	Cache    string            `json:"cache,omitempty"` // "", ok, torn, write-fail, read-fail
-	Budget   int64             `json:"budget,omitempty"`
-	WantDump bool              `json:"want_dump,omitempty"`
-	Twice    bool              `json:"twice,omitempty"` // load twice in this process and compare dumps
-	Any      bool              `json:"any,omitempty"`   // wrap the opener in source.Any (missing becomes an error)
+	ID        string            `json:"id"`
+	Main      string            `json:"main,omitempty"`      // text for LoadModuleFromString ...
+	MainName  string            `json:"main_name,omitempty"` // ... or resource name for LoadModule
+	Files     map[string]string `json:"files,omitempty"`
+	Faults    []FsFault         `json:"faults,omitempty"`
+	Order     OrderSpec         `json:"order"`
+	Cache     string            `json:"cache,omitempty"` // "", ok, torn, write-fail, read-fail
+	Budget    int64             `json:"budget,omitempty"`
+	WantDump  bool              `json:"want_dump,omitempty"`
+	Twice     bool              `json:"twice,omitempty"` // load twice in this process and compare dumps
+	Any       bool              `json:"any,omitempty"`   // wrap the opener in source.Any (missing becomes an error)
+	WantOrder bool              `json:"want_order,omitempty"`
 }
 
 type Outcome struct {
-	ID         string        `json:"id"`
-	Kind       string        `json:"kind"` // module error panic budget accessor-panic nil-module fatal timeout
-	Err        string        `json:"err,omitempty"`
-	PanicAt    string        `json:"panic_at,omitempty"`
-	Panic      string        `json:"panic,omitempty"`
-	Stack      string        `json:"stack,omitempty"`
-	Steps      int64         `json:"steps"`
-	Dump       string        `json:"dump,omitempty"`
-	DumpHash   string        `json:"dump_hash,omitempty"`
-	Dump2Hash  string        `json:"dump2_hash,omitempty"`
-	Visits     map[int32]int `json:"visits,omitempty"` // range-site visits with >1 entries
-	Opens      []string      `json:"opens,omitempty"`
-	LogHash    string        `json:"log_hash"`
-	FaultsHit  []string      `json:"faults_hit,omitempty"`
-	AccPanics  []string      `json:"accessor_panics,omitempty"`
-	TmplPanics int           `json:"template_accessor_panics,omitempty"`
-	Stderr     string        `json:"stderr,omitempty"`
-	Order      []string      `json:"order,omitempty"`
-	LoopFrame  string        `json:"loop_frame,omitempty"` // innermost frame shared by two different stopping points
-	Recursion  string        `json:"recursion,omitempty"`  // repo function that occurs > 50 times on the stack
+	ID         string              `json:"id"`
+	Kind       string              `json:"kind"` // module error panic budget accessor-panic nil-module fatal timeout
+	Err        string              `json:"err,omitempty"`
+	PanicAt    string              `json:"panic_at,omitempty"`
+	Panic      string              `json:"panic,omitempty"`
+	Stack      string              `json:"stack,omitempty"`
+	Steps      int64               `json:"steps"`
+	Dump       string              `json:"dump,omitempty"`
+	DumpHash   string              `json:"dump_hash,omitempty"`
+	Dump2Hash  string              `json:"dump2_hash,omitempty"`
+	Visits     map[int32]int       `json:"visits,omitempty"` // range-site visits with >1 entries
+	Opens      []string            `json:"opens,omitempty"`
+	LogHash    string              `json:"log_hash"`
+	FaultsHit  []string            `json:"faults_hit,omitempty"`
+	AccPanics  []string            `json:"accessor_panics,omitempty"`
+	TmplPanics int                 `json:"template_accessor_panics,omitempty"`
+	Stderr     string              `json:"stderr,omitempty"`
+	Order      []string            `json:"order,omitempty"`
+	OrderTrace map[string][]string `json:"order_trace,omitempty"`
+	LoopFrame  string              `json:"loop_frame,omitempty"` // innermost frame shared by two different stopping points
+	Recursion  string              `json:"recursion,omitempty"`  // repo function that occurs > 50 times on the stack
 }
 
 // ---------------------------------------------------------------- simulated file system
@@ -335,7 +337,11 @@ func Run(c *Case) (out Outcome) {
 			}
 			zzverifrt.ResetSteps(0)
 		}()
-		d = dump.New()
+		if c.WantDump {
+			d = dump.New()
+		} else {
+			d = dump.NewHashOnly()
+		}
 		text = d.Dump(mod)
 		return
 	}
@@ -359,7 +365,18 @@ func Run(c *Case) (out Outcome) {
 		return
 	}
 	out.TmplPanics = len(d.TemplatePanics)
-	out.DumpHash = fmt.Sprintf("%016x", kit.HashStr(text))
+	if c.WantOrder {
+		out.OrderTrace = map[string][]string{}
+		func() {
+			defer func() {
+				if p := recover(); p != nil {
+					out.OrderTrace["!panic"] = []string{fmt.Sprint(p)}
+				}
+			}()
+			orderTrace(m, out.OrderTrace)
+		}()
+	}
+	out.DumpHash = fmt.Sprintf("%016x", d.Hash())
 	if c.WantDump {
 		out.Dump = text
 	}
@@ -369,8 +386,10 @@ func Run(c *Case) (out Outcome) {
 		if pan2 != nil || err2 != nil || m2 == nil {
 			out.Dump2Hash = fmt.Sprintf("second load failed: %v %v", err2, pan2)
 		} else {
-			_, t2, _, _ := walk(m2)
-			out.Dump2Hash = fmt.Sprintf("%016x", kit.HashStr(t2))
+			d2, _, _, _ := walk(m2)
+			if d2 != nil {
+				out.Dump2Hash = fmt.Sprintf("%016x", d2.Hash())
+			}
 		}
 	}
 	return
@@ -402,4 +421,52 @@ func commonOuter(a, b []string) string {
 		j--
 	}
 	return last
+}
+
+// orderTrace records, through the public accessors only, the order of data
+// definitions under every parent, and of cases under every choice.
+func orderTrace(m *meta.Module, out map[string][]string) {
+	seen := map[meta.Definition]bool{} // recursive groupings make the compiled tree cyclic
+	var walk func(path string, defs []meta.Definition)
+	walk = func(path string, defs []meta.Definition) {
+		if len(path) > 2000 {
+			return
+		}
+		var ids []string
+		for _, d := range defs {
+			ids = append(ids, d.Ident())
+		}
+		out[path] = ids
+		for _, d := range defs {
+			p := d.Ident()
+			if path != "" {
+				p = path + "/" + d.Ident()
+			}
+			if seen[d] {
+				continue
+			}
+			seen[d] = true
+			switch x := d.(type) {
+			case *meta.Choice:
+				out["case:"+p] = append([]string(nil), x.CaseIdents()...)
+				for _, id := range x.CaseIdents() {
+					walk(p+"/"+id, x.Cases()[id].DataDefinitions())
+				}
+			case meta.HasDataDefinitions:
+				walk(p, x.DataDefinitions())
+			}
+		}
+	}
+	walk("", m.DataDefinitions())
+	for name, a := range m.Actions() {
+		if a.Input() != nil {
+			walk(name+"/input", a.Input().DataDefinitions())
+		}
+		if a.Output() != nil {
+			walk(name+"/output", a.Output().DataDefinitions())
+		}
+	}
+	for name, n := range m.Notifications() {
+		walk(name, n.DataDefinitions())
+	}
 }
